@@ -53,13 +53,16 @@ def c_breakout(g, inner):
     return [T(('call', None, ('code', [('scopename', b'S1'), T(N(1)), ('call', None, ('code', [T(N(2)), ('if', g.hb(), [('breakout', b'S1', g.hf([8, 9]))], None)] + inner + [T(N(3))])), T(N(4)), N(7)]))), T(N(5))]
 def c_lazyand(g, inner):
     return [T(('lazy', 'and', g.hb(), [T(N(1))] + inner + [g.hb()]))]
+def c_switchdef(g, inner):
+    # default written above the cases: a matching case still wins, default only when none matches
+    return [T(('switch', g.hf([0, 1, 2, 3]), [('default', [T(N(209)), N(9)]), T(N(60)), ('case', N(0), [T(N(200))] + inner + [N(1)]), ('case', N(2), [T(N(202)), N(2)]), T(N(61))])), T(N(5))]
 def c_lazyor(g, inner):
     return [T(('lazy', 'or', g.hb(), [T(N(1))] + inner + [g.hb()]))]
 def c_plain(g, inner):
     return [T(N(77))] + inner
 
 CONSTRUCTS = dict(if_=c_if, ifnoelse=c_ifnoelse, exitwith=c_exitwith, while_=c_while, for_=c_for, fornostep=c_fornostep, foreach=c_foreach, count=c_count, selectc=c_selectc,
-                  apply=c_apply, findif=c_findif, switch=c_switch, call=c_call, try_=c_try, breakout=c_breakout, lazyand=c_lazyand, lazyor=c_lazyor)
+                  apply=c_apply, findif=c_findif, switch=c_switch, switchdef=c_switchdef, call=c_call, try_=c_try, breakout=c_breakout, lazyand=c_lazyand, lazyor=c_lazyor)
 # inner statements that interfere with the enclosing construct (early exits) — placed innermost
 def leaf_exit(g): return [('exitwith', g.hb(), [T(N(88)), g.hb()])]
 def leaf_throw(g): return [('if', g.hb(), [('throw', N(66))], None)]
